@@ -83,6 +83,10 @@ func (e *Engine) solveAll(results []*FuncResult, wantModel bool) {
 	var wg sync.WaitGroup
 	for _, r := range results {
 		for _, o := range r.Obls {
+			if o.Trivial {
+				o.Status, o.Solver = "unsat", "by-construction"
+				continue
+			}
 			wg.Add(1)
 			go func(r *FuncResult, o *Obligation) {
 				defer wg.Done()
